@@ -524,6 +524,36 @@ void h_c02_slice(void)
     VERIF_COVER(in_v0.as.i64 > (int64_t)4294967296);
 }
 
+/* ---- C02.vm.STR_SUBSTR: (str_substring s start length) as documented (docs/STDLIB.md: empty string when start is out of
+ * bounds, "until the end" when start + length exceeds the length) and as the compiled runtime computes it (negative start or
+ * negative length: empty string), with start and length arbitrary int64 values - no narrowing before the comparison.
+ * B(source strings of <= 3 bytes, the harness's string shape). ---- */
+void h_c02_substr(void)
+{
+    build_state();
+    VmState *vm = g_vm;
+    __CPROVER_assume(in_stack_size >= 3 && in_v2.tag == TAG_STRING && in_v1.tag == TAG_INT && in_v0.tag == TAG_INT);
+    VmString *src = in_v2.as.string;
+    __CPROVER_assume(src->header.ref_count >= 2);
+    int64_t slen = src->length, start = in_v1.as.i64, count = in_v0.as.i64;
+    if (start < 0 || start > slen || count < 0) count = 0;
+    else if (count > slen - start) count = slen - start;
+    if (count == 0) start = 0;
+    uint32_t j = nondet_u32(); __CPROVER_assume(j < 3);
+    char want = (j < count) ? src->data[start + j] : 0;
+    uint32_t ss0 = vm->stack_size;
+    VmTrap t = vm_core_execute(vm);
+    __CPROVER_assert(t.type == TRAP_HALT || t.type == TRAP_NONE, "C02.vm STR_SUBSTR does not trap");
+    __CPROVER_assert(vm->stack_size == ss0 - 2, "C02.vm STR_SUBSTR consumes three operands, pushes one result");
+    NanoValue r = vm->stack[vm->stack_size - 1];
+    __CPROVER_assert(r.tag == TAG_STRING && r.as.string != NULL, "C02.vm STR_SUBSTR yields a string");
+    __CPROVER_assert(r.as.string->length == (uint32_t)count, "C02.vm STR_SUBSTR length == spec (64-bit start / length, no narrowing)");
+    __CPROVER_assert(j >= count || r.as.string->data[j] == want, "C02.vm STR_SUBSTR byte j == source byte start + j");
+    VERIF_COVER(count == 2 && start == 1);
+    VERIF_COVER(in_v0.as.i64 < 0);
+    VERIF_COVER(in_v1.as.i64 > (int64_t)4294967296);
+}
+
 /* ---- C14.step.ARR_SLICE.bounded: the census of (array_slice a start length) for an array whose slots hold ints or DISTINCT
  * strings, whatever the array's elem_type tag says: every string copied into the result gains exactly one count (the new
  * reference), strings outside the slice keep theirs, the source array loses the reference popped from the stack.
